@@ -642,6 +642,21 @@ func generate(repo, out string) error {
 		return err
 	}
 
+	// 4l. the construction logic (`New` after its guard prefix, `createColumn`, the enum factory) as terms of QF.CK / QF.NS / QF.FT (nast.go, east.go)
+	if err := writeIfChanged(filepath.Join(out, "Construct.lean"), []byte(constructLean(repo, root, ecol))); err != nil {
+		return err
+	}
+
+	// 4j. NewMatcher and the Matches methods of internal/strings as terms of QF.MT / QF.MB (mast.go)
+	if err := writeIfChanged(filepath.Join(out, "Matcher.lean"), []byte(matcherLean(strs))); err != nil {
+		return err
+	}
+
+	// 4k. the expression decoder of expression.go and Expr as terms of QF.XT / QF.XF (xast.go)
+	if err := writeIfChanged(filepath.Join(out, "ExprDecode.lean"), []byte(exprDecodeLean(repo, root))); err != nil {
+		return err
+	}
+
 	// 4e. the row hash functions as terms of QF.HE (hast.go)
 	if err := writeIfChanged(filepath.Join(out, "Hash.lean"), []byte(hashLean(colPkgs, pkgFns))); err != nil {
 		return err
